@@ -291,7 +291,11 @@ fn roundtrip<F: Fl + serde::Serialize + serde::de::DeserializeOwned>(reg: &Reg<F
         ($s:expr, $variant:path) => {{
             let js = serde_json::to_string($s).map_err(|e| format!("serialize: {}", e))?;
             let back = serde_json::from_str(&js).map_err(|e| format!("deserialize: {}", e))?;
-            let eq = &back == $s;
+            // and through a positional format; the state that continues the history is the one restored from it
+            let toks = crate::poswire::to_tokens($s).map_err(|e| format!("positional serialize: {}", e))?;
+            let pback = crate::poswire::from_tokens(&toks).map_err(|e| format!("positional deserialize: {}", e))?;
+            let eq = &back == $s && &pback == $s;
+            let back = if eq { pback } else { back };
             Ok(($variant(back), eq, js))
         }};
     }
